@@ -424,7 +424,8 @@ def run(rep):
 
     rep.technique = ("proxy-based symbolic execution of the real handlers of rex.asynchronous: each rule is executed on a state s and on s' = s plus an arbitrary "
                      "FIFO-later suffix on one of its input queues (what a different thread schedule can change) and z3 decides that all writes agree; "
-                     "wall clock and time.sleep replaced by symbolic stubs to decide clock independence; run_supervisor with/without override compared")
+                     "wall clock and time.sleep replaced by symbolic stubs to decide clock independence; run_supervisor with/without override compared; one node driven "
+                     "under two legal schedules (steps fired eagerly vs after the scheduling chain simulated all ticks ahead) must record the same steps")
     W, N = A._AsyncConnectionWrapper, A._AsyncNodeWrapper
     rep.encode(W.push_expected_nonblocking, W.push_ts_max, W.push_selection, W.push_zip, W.push_input, W.push_expected_blocking, N.push_phase_shift, N.push_step,
                N.throttle, N.now, A.AsyncGraph.run_supervisor)
@@ -436,7 +437,7 @@ def run(rep):
         except Exception as e:  # noqa
             rep.notes.append(f"order-insensitivity scenario unavailable: {e}")
     rep.configs = cfgs
-    rep.bounds = dict(queue_prefix="<= 2 (3) items + 2 suffix items", ticks=2, real_time_factor=[0, 1, 10])
+    rep.bounds = dict(queue_prefix="<= 2 (3) items + 2 suffix items", ticks="2 (clock scenario), 3 (eager vs run-ahead node schedules)", real_time_factor=[0, 1, 10])
     rep.assumptions = ["deque operations are atomic (GIL); every executor runs its tasks FIFO",
                        "composition: with single-producer/single-consumer queues (ownership table in this evidence), prefix-independent rules and C03/C04's closed forms, "
                        "every recorded quantity is a function of the input streams only -- this composition is a paper argument (DESIGN.md), not a solver result",
